@@ -105,6 +105,11 @@ def check_cell(ctx, op, fn, lsrc, rsrc, lk, rk):
     inc = t.issues.get('incompatible_types') or []
     if cpy == 'TypeError':
         ctx.count('cells_cpython_typeerror')
+        if not inc and type(lv) is type(rv) and type(lv) in (list, tuple) and op in ('<', '<=', '>', '>='):
+            # two lists (or two tuples) are orderable as such; the TypeError comes from comparing their ELEMENTS and depends on the
+            # values (an empty operand, or equal leading elements, and there is none): not decided by the operand types
+            ctx.count('cells_typeerror_from_comparing_elements_(value dependent, not judged)')
+            return
         if not inc:
             ctx.violation('C19|missed-incompatible-types|%s' % cell, case, 'CPython raises TypeError, TIFA reports %s' % sorted(k for k, v in t.issues.items() if v))
         return
@@ -138,8 +143,7 @@ def all_cells():
         for rk, rs in SAMPLES.items():
             if lk == 'bool' or rk == 'bool':
                 continue            # the statement's core types: int, float, str, list, tuple
-            if not same_element_family(lk, rk):
-                continue
+            mixed = not same_element_family(lk, rk)      # e.g. a list of ints and a list of strs: what the operation gives holds both
             for l in ls:
                 for r in rs:
                     for op, fn in BINOPS + CMPOPS:
